@@ -111,6 +111,7 @@ type pathCtx struct {
 	domSkips int
 	pend     []pendingAssert
 	codecs   map[*value]*codecState
+	regexps  map[*value]*regexState
 	symTime  bool
 	clock    int64
 	fixed    map[uint64][]fixedTerm
